@@ -107,21 +107,26 @@ class TapeRecorder(object):
         """
         Discards currently active recording process
         """
-        if self._active_recording is not None:
+        # Keep a local reference, interceptions running on other threads may discard the recording at the same time
+        recording = self._active_recording
+        if recording is not None:
             _logger.info(
-                u'Recording with id {} was discarded'.format(self._active_recording.id))
-            self.tape_cassette.abort_recording(self._active_recording)
+                u'Recording with id {} was discarded'.format(recording.id))
             self._reset_active_recording()
+            self.tape_cassette.abort_recording(recording)
 
     def force_sample_recording(self):
         """
         Make sure currently active recording will be sampled (unless explicitly discarded or set to ignore enforcement)
         """
-        if self._active_recording is not None:
-            if self._active_recording_parameters.ignore_enforced_sampling:
+        # Keep local references, interceptions running on other threads may discard the recording at the same time
+        recording = self._active_recording
+        recording_parameters = self._active_recording_parameters
+        if recording is not None and recording_parameters is not None:
+            if recording_parameters.ignore_enforced_sampling:
                 return
             _logger.info(
-                u'Recording with id {} sampling is enforced'.format(self._active_recording.id))
+                u'Recording with id {} sampling is enforced'.format(recording.id))
             self._force_sample = True
 
     @property
